@@ -203,6 +203,7 @@ def bump_input_classes(res: Result, sc: S.Scenario, req: Any) -> None:
         res.bump("sub-second:bundle-time-fraction:" + ("0" if f == 0 else "<.5" if f < 500_000 else "=.5" if f == 500_000 else ">.5"))
     for used in (sc.meta.get("spellings") or {}).values():
         res.bump("spelling:ds_sha256:" + used.get("ds_sha256", "absent"))
+        res.bump("spelling:algorithm:" + used.get("algorithm", "name"))
         for f in ("valid_from", "valid_until"):
             where, _, style = used.get(f, "default").partition(":")
             res.bump(f"spelling:{f}:placed:{where}")
